@@ -61,6 +61,34 @@ pub fn tokens() -> Vec<&'static [u8]> {
     ]
 }
 
+/// A well-formed model of about 50 KiB (more than three default chunks): many nodes with symbols,
+/// trailing comments, comment lines and blank lines.
+pub fn long_docs() -> Vec<Doc> {
+    let mut d = b"; long model\n1 sort bitvec 8\n2 sort bitvec 1\n3 input 1 first\n".to_vec();
+    let mut id = 3usize;
+    while d.len() < 50_000 {
+        id += 1;
+        let line = match id % 7 {
+            0 => format!("{id} input 1 in{id}\n"),
+            1 => format!("{id} add 1 {} {} ; sum {}\n", id - 1, 3, "s".repeat(id % 19)),
+            2 => format!("{id} not 1 {}\n", id - 1),
+            3 => format!("{id} eq 2 {} {} cmp{id}\n", id - 1, id - 2),
+            4 => format!("{id} constd 1 {}\n", id % 200),
+            5 => format!("{id} ite 1 {} {} {}\n", id - 2, id - 1, 3),
+            _ => format!("{id} slice 2 {} 0 0\n", id - 1),
+        };
+        d.extend_from_slice(line.as_bytes());
+        if id % 40 == 0 {
+            d.extend_from_slice(format!("; comment {id}\n\n").as_bytes());
+        }
+    }
+    d.extend_from_slice(format!("{} bad {}\n", id + 1, id - 3).as_bytes());
+    let mut bad = d.clone();
+    let k = bad.len() * 2 / 3;
+    bad[k] = b'?';
+    vec![Doc::new("^btor2:long", d), Doc::new("^btor2:long-corrupted", bad)]
+}
+
 pub struct Inputs {
     pub corpus: Vec<Doc>,
     pub neighbours: Vec<Doc>,
@@ -95,6 +123,7 @@ pub fn inputs_seq(tier: Tier, seq_len: usize) -> Inputs {
     nb.extend(comment_byte_docs("btor2-comment", b"1 sort bitvec 1 ; ", b"2 input 1\n"));
     nb.extend(comment_byte_docs("btor2-comment-line", b"; ", b"1 sort bitvec 1\n"));
     nb.extend(comment_byte_docs("btor2-symbol", b"1 sort bitvec 1\n2 input 1 ", b"3 not 1 2\n"));
+    nb.extend(long_docs());
     let sequences = dedup_docs(token_sequences(&tokens(), seq_len));
     // all short strings over a 10-symbol alphabet (arbitrary inputs)
     let mut sequences = sequences;
